@@ -512,6 +512,13 @@ Theorem GenTie_reverse_bits : forall bits a,
 Proof. exact g_reverse_bits_eq. Qed.
 Print Assumptions GenTie_reverse_bits.
 
+(* src/bits.rs: most_significant_bits (`iter().rposition(..).unwrap_or(0)`, `first().copied().unwrap_or(0)`) *)
+Theorem GenTie_msb : forall bits a,
+  64 * lenZ a < B -> Forall inW a ->
+  g_most_significant_bits bits (nlimbs bits) a = Bits.most_significant_bits a.
+Proof. exact g_most_significant_bits_eq. Qed.
+Print Assumptions GenTie_msb.
+
 (* the premises are satisfiable and the generated code computes: reciprocal(2^63) = 2^64 - 1 *)
 Example GenTie_nonvacuous :
   g_reciprocal_mg10 (2 ^ 63) = Val (2 ^ 64 - 1) /\ g_mask 65 = Val 1 /\ g_nlimbs 65 = Val 2 /\
@@ -534,6 +541,7 @@ Example GenTie_nonvacuous :
   g_bitxor 65 2 [5; 1] [3; 1] = Val [6; 0] /\
   g_leading_zeros 65 2 [5; 0] = Val 62 /\
   g_reverse_bits 65 2 [1; 0] = Val [0; 1] /\
+  g_most_significant_bits 130 3 [2 ^ 63; 5; 0] = Val (0xB000000000000000, 3) /\
   g_inv_ring 130 3 [3; 0; 0] = Val (Some [12297829382473034411; 12297829382473034410; 2]) /\
   g_mat_from_u64 240 46 = Val (9, 47, 23, 120, false) /\
   g_alg_gcd 65 2 [0; 1] [2 ^ 63 + 2 ^ 62; 0] = Val [2 ^ 62; 0] /\
